@@ -19,7 +19,7 @@ Theorem C07_advertises_exactly_config : forall c, view (open_of c) = our_adv c.
 Proof. exact view_open_of. Qed.
 
 (* Field by field (families in order, asn4, both AS numbers, ADD-PATH send/receive for EVERY family, extended
-   next hop, refresh flavour, message size, hold time) the modelled Negotiated is the RFC function, for all
+   next hop, refresh flavour, message size, hold time, paths-limit in both directions for EVERY family) the modelled Negotiated is the RFC function, for all
    configurations and all peer OPENs; for the unrepaired behaviour only when the local AS fits 16 bits. *)
 Theorem C07_negotiate_is_rfc : forall fx c r,
   wf_cfg c -> wf_peer r -> fx = true \/ c_local_as c <= 65535 ->
@@ -59,8 +59,18 @@ Theorem C07_addpath_direction : forall fx c r f,
   /\ ap_lookup (n_ap_recv n) f = can_receive (send_receive (our_adv c) f) && can_send (send_receive (view r) f).
 Proof. exact addpath_direction. Qed.
 
+(* multi-session (draft-ietf-idr-bgp-multisession): Negotiated.multisession is a refusal exactly when the draft
+   names a fault - 2/9 when we require grouping and the peer does not offer it, 2/8 when the groups differ *)
+Theorem C07_multisession : forall fx c r, wf_cfg c ->
+  match n_ms (negotiate_g fx (open_of c) r) with
+  | MsRefuse a b => ms_faults (our_adv c) (view r) = [(a, b)]
+  | _ => ms_faults (our_adv c) (view r) = []
+  end.
+Proof. exact ms_agrees. Qed.
+
 (* Negotiated.validate refuses exactly when the RFCs name a fault, with the subcode of one of the faults present
-   (peer AS mismatch 2/2, identifier 0.0.0.0 or equal identifier on an internal session 2/3, hold time 1 or 2 -> 2/6);
+   (peer AS mismatch 2/2, identifier 0.0.0.0 or equal identifier on an internal session 2/3, hold time 1 or 2 -> 2/6,
+   multi-session grouping 2/8 and 2/9);
    unrepaired collision test only for a 16 bit local AS. *)
 Theorem C07_refusals : forall fx fy c r,
   wf_cfg c -> wf_peer r -> o_version r = 4 ->
@@ -98,7 +108,8 @@ Definition cfg_big : cfg :=
      c_families := [(1,1);(1,2);(1,4);(1,5);(1,73);(1,85);(1,128);(1,132);(1,133);(1,134);(2,1);(2,2);(2,4);(2,5);(2,73);(2,85);(2,128);(2,133);(2,134);(25,65);(25,70);(16388,71);(16388,72)];
      c_asn4 := true; c_nexthop := true; c_nexthops := [(1,1,2)]; c_addpath := 3; c_addpaths := [(1,1);(2,1)];
      c_gr := true; c_gr_time := 120; c_restarted := false; c_refresh := true; c_operational := false; c_extmsg := true;
-     c_host := [109;121]; c_domain := [100]; c_software := []; c_linklocal := false |}.
+     c_host := [109;121]; c_domain := [100]; c_software := [69;120;97]; c_linklocal := false;
+     c_paths_limit := [((1,1), 10)]; c_multisession := true |}.
 
 Example C07_example :
   wf_cfg cfg_70000 /\ wf_peer peer_65001
@@ -119,6 +130,7 @@ Print Assumptions C07_families_intersection.
 Print Assumptions C07_holdtime_min.
 Print Assumptions C07_msg_size.
 Print Assumptions C07_addpath_direction.
+Print Assumptions C07_multisession.
 Print Assumptions C07_refusals.
 Print Assumptions C07_collision_refuted.
 Print Assumptions C07_short_open.
